@@ -102,6 +102,27 @@ func bVarint(n uint64) []byte {
 	}
 }
 
+// bCopyOp encodes a delta copy instruction (zero bytes are omitted, as git does).
+func bCopyOp(off, size uint64) []byte {
+	cmd := byte(0x80)
+	var ps []byte
+	for k := uint(0); k < 4; k++ {
+		if b := byte(off >> (8 * k)); b != 0 {
+			cmd |= 1 << k
+			ps = append(ps, b)
+		}
+	}
+	if size != 0x10000 {
+		for k := uint(0); k < 3; k++ {
+			if b := byte(size >> (8 * k)); b != 0 {
+				cmd |= 0x10 << k
+				ps = append(ps, b)
+			}
+		}
+	}
+	return append([]byte{cmd}, ps...)
+}
+
 // bStored wraps data in a zlib stream made of stored (uncompressed) blocks.
 func bStored(data []byte) []byte {
 	out := make([]byte, 0, len(data)+16)
@@ -713,6 +734,9 @@ func bParse(pack []byte, mode int, sha256fmt bool, dir string, pre []bObj, extra
 		st = fsst
 	}
 	for _, o := range pre {
+		if st == nil {
+			break
+		}
 		eo := st.NewEncodedObject()
 		t, _ := plumbing.ParseObjectType(o.Type)
 		eo.SetType(t)
